@@ -108,7 +108,7 @@ def case(ctx, rng, idx, state):
 if __name__ == "__main__":
     harness.main(
         PROP, "exploration", case, setup_fn=setup,
-        tiers=dict(quick=dict(cases=32, shards=8, time=200), thorough=dict(cases=640, shards=16, time=1200)),
+        tiers=dict(quick=dict(cases=32, shards=8, time=900), thorough=dict(cases=640, shards=16, time=3000)),
         rule="all concrete calculator classes (static incl. internal-terms variants, dynamic incl. the three SHC types, tabulators, SDCT terms and "
              "multi-term calculators) evaluated at random k and -k on spinless-TR, spinful-TR, inversion and spinful-inversion symmetric random models with "
              "all 13 real-space matrices; distinct = (model kind, calculator variant, result component)",
